@@ -45,7 +45,14 @@ fn sep(u: &mut Unstructured, first_not_digit: bool, not_colon: bool) -> arbitrar
             1 => Tok::Apostrophe,
             _ => {
                 let mut s = String::new();
-                let c = if u.coin(1, 5)? { crate::props::c11::random_non_ascii(u)? } else { *u.choose(FIRST)? };
+                // (one in twelve: a character that is numeric for Unicode but not an ASCII digit)
+                let c = if u.coin(1, 12)? {
+                    *u.choose(&['\u{b2}', '\u{b3}', '\u{bd}', '\u{2460}', '\u{2163}', '\u{663}', '\u{ff13}', '\u{967}', '\u{3007}'])?
+                } else if u.coin(1, 5)? {
+                    crate::props::c11::random_non_ascii(u)?
+                } else {
+                    *u.choose(FIRST)?
+                };
                 if not_colon && c == ':' {
                     continue;
                 }
@@ -239,6 +246,9 @@ impl Prop for RoundTrip {
         Ok(Case { kind, v, off, toks })
     }
     fn check(c: &Case, cx: &mut Cx) -> Verdict {
+        if crate::props::c11::toks_too_large(&c.toks) {
+            return Verdict::Skip("malformed case");
+        }
         if !case_ok(c) {
             return Verdict::Skip("malformed case");
         }
